@@ -147,6 +147,55 @@ def kara (sub : Bool) (rp tp : List Nat) : List Nat :=
   let mid : Int := (l : Int) + h + (if sub then -(m : Int) else (m : Int))
   toLimbs (2 * n) (((val rp : Int) + mid * (pw n2 : Nat)) % ((pw (2 * n) : Nat) : Int)).toNat
 
+
+/-- mpn_mod_1_1 / _2 / _3 (mpn/generic/mod_1_1.c, mod_1_2.c, mod_1_3.c): the two-limb value the C loops produce from the
+    table db[i] = B^(i+1) mod d; every step is an exact linear combination, kept modulo B^2 as add_ssaaaa does. -/
+def dbTab (d : Nat) : List Nat := [B % d, B ^ 2 % d, B ^ 3 % d, B ^ 4 % d]
+
+def mod_1_k (k : Nat) (x : List Nat) (d : Nat) : List Nat :=
+  let B2 := B * B
+  let xa := x.toArray; let xn := x.length
+  let db := (dbTab d).toArray
+  let X := fun (i : Nat) => xa.getD i 0
+  let D := fun (i : Nat) => db.getD i 0
+  let fin := fun (t : Nat) => let r := ((t / B) * D 0 + t % B) % B2; [r % B, r / B]
+  let t0 := X (xn - 1) * B + X (xn - 2)
+  match k with
+  | 1 =>
+    -- for (j = xn-3; j >= 0; j--) { s = l*db0 + x[j]; (h:l) = h*db1 + s }
+    fin ((List.range (xn - 2)).foldl (fun t i => let j := xn - 3 - i
+      ((t / B) * D 1 + ((t % B) * D 0 + X j)) % B2) t0)
+  | 2 =>
+    let rounds := (xn - 2) / 2              -- j = xn-4, xn-6, ... >= 0
+    let t := (List.range rounds).foldl (fun t i => let j := xn - 4 - 2 * i
+      ((t / B) * D 2 + (X (j + 1) * D 0 + X j + (t % B) * D 1)) % B2) t0
+    let t := if (xn - 2) % 2 = 1 then ((t / B) * D 1 + ((t % B) * D 0 + X 0)) % B2 else t
+    fin t
+  | _ =>
+    let rounds := (xn - 2) / 3              -- j = xn-5, xn-8, ... >= 0
+    let t := (List.range rounds).foldl (fun t i => let j := xn - 5 - 3 * i
+      ((t / B) * D 3 + (X (j + 1) * D 0 + X j + X (j + 2) * D 1 + (t % B) * D 2)) % B2) t0
+    let left := (xn - 2) % 3               -- limbs x[0..left) still to absorb: 0, 1 (j = -2) or 2 (j = -1)
+    let t := if left = 2 then ((t / B) * D 2 + (X 1 * D 0 + X 0 + (t % B) * D 1)) % B2
+             else if left = 1 then ((t / B) * D 1 + (X 0 + (t % B) * D 0)) % B2 else t
+    fin t
+
+/-- inverse of an odd number modulo 2^k (Newton) -/
+def invPow2 (d k : Nat) : Nat :=
+  let m := 2 ^ k
+  let rec go (fuel x : Nat) : Nat := match fuel with
+    | 0 => x
+    | f + 1 => go f (x * ((2 * m + 2 - d * x % m) % m) % m)
+  go (k.log2 + 3) 1
+
+/-- Hensel division by an odd limb d (mpn/generic/divrem_hensel_qr_1_1.c): {x,n} - cin = q*d - ret*B^n with q < B^n;
+    returns (q, ret).  `cin` is the limb the rsh_ variants subtract first (0 for the plain ones). -/
+def hensel (x : List Nat) (d cin : Nat) : Nat × Nat :=
+  let n := x.length; let m := pw n
+  let xv : Int := (val x : Int) - cin
+  let q := ((xv % (m : Int)).toNat * invPow2 d (64 * n)) % m
+  (q, (((q * d : Nat) : Int) - xv) / (m : Int) |>.toNat)
+
 /-! ### value level -/
 
 def powMod (b e m : Nat) : Nat :=
